@@ -291,7 +291,10 @@ func rEvalStepNoPred(s rStep, item interface{}, env *rEnv) interface{} {
 		}
 		return m
 	case sCount:
-		r := rPath([]rStep{{kind: sName, name: s.name}}, false, item, env) // the inner name is itself a one-step path
+		var r interface{} = item
+		if s.name != "$" {
+			r = rPath([]rStep{{kind: sName, name: s.name}}, false, item, env) // the inner name is itself a one-step path
+		}
 		switch x := r.(type) {
 		case rUndefT:
 			return 0
@@ -505,14 +508,28 @@ func VerifH_C01_Paths() {
 	for i := range steps {
 		menu := rStepMenu
 		if i > 0 {
-			// $, $$ and variables anchor a path only in first position
-			menu = []rStep{rStepMenu[0], rStepMenu[1], rStepMenu[5], rStepMenu[6], rStepMenu[7], rStepMenu[8], rStepMenu[9], rStepMenu[10]}
+			// $$ and variables appear in first position only ($ in a later position is the context item)
+			menu = []rStep{rStepMenu[0], rStepMenu[1], rStepMenu[2], rStepMenu[5], rStepMenu[6], rStepMenu[7], rStepMenu[8], rStepMenu[9], rStepMenu[10]}
 		}
 		steps[i] = menu[verifChoose(len(menu))]
 		if steps[i].kind == sWild || steps[i].kind == sDesc {
 			wild = true
 		}
 	}
+	c01Check(steps, wild)
+}
+
+// VerifH_C01_Mid: three-step paths whose middle step is a constructor, a parenthesised sub-path or a
+// function call (steps whose array results are units or are flattened differently from names).
+func VerifH_C01_Mid() {
+	first := []rStep{rStepMenu[0], rStepMenu[1], rStepMenu[2], rStepMenu[4]}
+	mid := []rStep{rStepMenu[7], rStepMenu[8], rStepMenu[9], rStepMenu[10]}
+	last := []rStep{rStepMenu[0], rStepMenu[1], rStepMenu[2], rStepMenu[5], rStepMenu[6], rStepMenu[8], rStepMenu[10], {kind: sCount, name: "$"}}
+	steps := []rStep{first[verifChoose(len(first))], mid[verifChoose(len(mid))], last[verifChoose(len(last))]}
+	c01Check(steps, steps[2].kind == sWild || steps[2].kind == sDesc)
+}
+
+func c01Check(steps []rStep, wild bool) {
 	keep := verifBool()
 	budget := verifParam("NODES", 5)
 	doc := rGenValue(verifParam("DEPTH", 3), verifParam("W", 2), wild, &budget)
@@ -546,12 +563,33 @@ func VerifH_C02_Stacked() {
 	c02Body(verifParam("LEN", 2), verifParam("P", 2), verifParam("PK", 6))
 }
 
-func c02Body(maxLen, maxP, pk int) {
+// VerifH_C02_ArrayItems: predicates (single and stacked) over items that are themselves arrays: on a
+// field-name step the survivors are filtered as they are, on other heads a lone array-valued survivor
+// is unwrapped before the next predicate.
+func VerifH_C02_ArrayItems() {
+	c02BodyX(verifParam("LEN", 2), verifParam("P", 2), 0, true)
+}
+
+func c02Body(maxLen, maxP, pk int) { c02BodyX(maxLen, maxP, pk, false) }
+
+func c02BodyX(maxLen, maxP, pk int, arrayItems bool) {
 	t := hFinite()
 	n := verifChoose(maxLen + 1)
 	arr := make([]interface{}, n)
-	miss := verifChoose(n + 1) // the member that lacks b (n: none)
+	miss := n
+	if !arrayItems {
+		miss = verifChoose(n + 1) // the member that lacks b (n: none)
+	}
 	for i := range arr {
+		if arrayItems {
+			m := verifChoose(3)
+			sub := make([]interface{}, m)
+			for k := range sub {
+				sub[k] = float64(10*i + k)
+			}
+			arr[i] = sub
+			continue
+		}
 		m := map[string]interface{}{"id": float64(i)}
 		if i != miss {
 			m["b"] = hFinite()
@@ -563,7 +601,11 @@ func c02Body(maxLen, maxP, pk int) {
 	np := 1 + verifChoose(maxP)
 	preds := make([]rPred, np)
 	for i := range preds {
-		preds[i] = rPred{kind: verifChoose(pk)}
+		if arrayItems {
+			preds[i] = rPred{kind: []int{0, 4, 6, 3, 5}[verifChoose(5)]}
+		} else {
+			preds[i] = rPred{kind: verifChoose(pk)}
+		}
 	}
 	var steps []rStep
 	switch verifChoose(6) {
